@@ -134,3 +134,73 @@ package expr
 //@ func (*avg).calc
 //@   pure
 //@   ensures val: (count == 0 ==> result == 0) && (count != 0 ==> result * count == total)
+
+// Get(b): reads the first EncodedWidth bytes of b and returns the remainder; writes nothing.
+//@ interface Expr.Get
+//@   params this, b
+//@   requires room: len(b) >= this.EncodedWidth()
+//@   modifies nothing
+//@   ensures remain: result2 == b[this.EncodedWidth():]
+
+// ---- IF(cond, wrapped): same state layout as the wrapped accumulator; implementation of the Expr contract ----
+// (C01: a point excluded by the condition changes nothing, and in every case the remainder returned is the buffer
+// after this expression's own bytes - binary expressions feed it to their right operand.)
+//@ func (*ifExpr).include
+//@   modifies nothing
+
+//@ func (*ifExpr).Update
+//@   requires e != nil && e.Wrapped != nil && e.Width == e.Wrapped.EncodedWidth()
+//@   requires room: len(b) >= e.Width
+//@   modifies b[0:e.Width]
+//@   capture inc Bool = result 0 of call (*expr.ifExpr).include
+//@   ensures remain: result0 == b[e.Width:]
+//@   ensures excluded_untouched: captured(inc) && !inc ==> result2 == false && (forall j in 0..e.Width :: b[j] == old(b[j]))
+
+//@ func (*ifExpr).Merge
+//@   requires e != nil && e.Wrapped != nil && e.Width == e.Wrapped.EncodedWidth()
+//@   requires room: len(b) >= e.Width && len(x) >= e.Width && len(y) >= e.Width
+//@   modifies b[0:e.Width]
+//@   ensures remain: result0 == b[e.Width:] && result1 == x[e.Width:] && result2 == y[e.Width:]
+
+// ---- binary expressions: left state followed by right state ----
+//@ func (*binaryExpr).Update
+//@   let lw = e.Left.EncodedWidth()
+//@   let rw = e.Right.EncodedWidth()
+//@   requires e != nil && e.Left != nil && e.Right != nil
+//@   requires room: len(b) >= lw + rw
+//@   modifies b[0:lw+rw]
+//@   callback calc modifies nothing
+//@   ensures remain: result0 == b[lw+rw:]
+
+//@ func (*binaryExpr).Merge
+//@   let lw = e.Left.EncodedWidth()
+//@   let rw = e.Right.EncodedWidth()
+//@   requires e != nil && e.Left != nil && e.Right != nil
+//@   requires room: len(b) >= lw + rw && len(x) >= lw + rw && len(y) >= lw + rw
+//@   modifies b[0:lw+rw]
+//@   ensures remain: result0 == b[lw+rw:] && result1 == x[lw+rw:] && result2 == y[lw+rw:]
+
+// ---- PERCENTILE: state = count of buckets (8 bytes, 0 = unset) followed by the bucket counts ----
+// (C05: a side that holds a histogram is never dropped: whenever x or y is set the destination is rewritten by save -
+// also when the destination is a fresh buffer rather than x itself, as in Sequence.Merge.)
+//@ func (*ptile).load
+//@   requires e != nil && len(b) >= e.Width && e.Width >= 8
+//@   modifies nothing
+//@   ensures set: result1 == (i64of(u64At(b, 0)) > 0)
+//@   ensures remain: result2 == b[e.Width:]
+//@   loop 0 modifies counts[0:len(counts)]
+
+//@ func (*ptile).save
+//@   requires e != nil && len(b) >= e.Width && e.Width >= 8
+//@   modifies b[0:len(b)]
+//@   ensures remain: result == b[e.Width:]
+//@   loop 0 modifies b[0:len(b)]
+
+//@ func (*ptile).Merge
+//@   requires e != nil && e.Width >= 8
+//@   requires room: len(b) >= e.Width && len(x) >= e.Width && len(y) >= e.Width
+//@   modifies b[0:len(b)]
+//@   capture saved Slice = result 0 of call (*expr.ptile).save
+//@   ensures remain: result0 == b[e.Width:] && result1 == x[e.Width:] && result2 == y[e.Width:]
+//@   ensures set_side_is_saved: old(i64of(u64At(x, 0)) > 0 || i64of(u64At(y, 0)) > 0) ==> captured(saved)
+//@   ensures both_unset_untouched: !old(i64of(u64At(x, 0)) > 0 || i64of(u64At(y, 0)) > 0) ==> !captured(saved)
